@@ -291,10 +291,25 @@ def memo_discipline(ctx):
     evict = [c for c in calls_in(u) if isinstance(c.func, ast.Attribute) and c.func.attr in ('clear', 'pop', 'popitem')
              and is_name(c.func.value, cache)]
     ctx.ob(not evict, u, 'the memo never evicts entries', '%s' % [norm(c) for c in evict])
-    # membership test guards the store
-    tests = [n for n in u.own_nodes() if isinstance(n, ast.If) and isinstance(n.test, ast.Compare)
-             and isinstance(n.test.ops[0], ast.NotIn) and is_name(n.test.left, text) and is_name(n.test.comparators[0], cache)]
-    ctx.ob(len(tests) == 1, u, 'the memo is consulted by `text not in cache`: %s' % [norm(t.test) for t in tests])
+    # membership test guards the store: a dominating `text [not] in cache` test whose "present"
+    # edge cannot reach the store
+    tests = []
+    for n in cfg.nodes:
+        if n.kind == 'test' and isinstance(n.ast, ast.Compare) and len(n.ast.ops) == 1 \
+                and isinstance(n.ast.ops[0], (ast.In, ast.NotIn)) and is_name(n.ast.left, text) \
+                and is_name(n.ast.comparators[0], cache):
+            tests.append((n, 'true' if isinstance(n.ast.ops[0], ast.In) else 'false'))
+    ok = bool(tests) and bool(stores)
+    for st in stores:
+        sn = cfg.node_of(st)
+        guarded = False
+        for t, present in tests:
+            if cfg.dominates(t, sn) and cfg.find_path(t, {sn}, start_labels=lambda lab, e=present: lab == e,
+                                                      labels=lambda lab: lab != 'exc') is None:
+                guarded = True
+        ok = ok and guarded
+    ctx.ob(ok, u, 'the memo is consulted first: the entry is computed and stored only when the text is not in the cache: %s'
+           % [norm(t.ast) for t, _ in tests])
     # no eviction / mutation of cached Paths: nobody else touches _CACHE
     others = []
     for uu in p.package_units():
